@@ -6,7 +6,7 @@ silent for all 18 properties (those with meta.known_false_alarm are reported sep
 Runs in scratch worktrees of /repo (never in /repo itself) with a copy of the checker binary, so it can
 run while development goes on.
 
-usage: regress.py [--workers N] [--only PREFIX] [--extra DIR ...]
+usage: regress.py [--workers N] [--only PREFIX] [--extra DIR ...] [--bin PATH] [--verbose]
 """
 import json, os, re, shutil, subprocess, sys, tempfile
 from concurrent.futures import ThreadPoolExecutor
@@ -22,16 +22,18 @@ def sh(cmd, cwd=None):
 
 
 def main():
-    workers, only, extra = 8, None, []
+    workers, only, extra, binsrc, verbose = 8, None, [], '/verif/bin/verifchk', False
     a = sys.argv[1:]
     while a:
         if a[0] == '--workers': workers = int(a[1]); a = a[2:]
         elif a[0] == '--only': only = a[1]; a = a[2:]
         elif a[0] == '--extra': extra.append(a[1]); a = a[2:]
+        elif a[0] == '--bin': binsrc = a[1]; a = a[2:]
+        elif a[0] == '--verbose': verbose = True; a = a[1:]
         else: a = a[1:]
     base = tempfile.mkdtemp(prefix='vreg_')
     binp = os.path.join(base, 'verifchk')
-    shutil.copy('/verif/bin/verifchk', binp)
+    shutil.copy(binsrc, binp)
     wts = []
     for i in range(workers):
         wt = os.path.join(base, 'wt%d' % i)
@@ -87,7 +89,7 @@ def main():
     shutil.rmtree(base, ignore_errors=True)
     print('jobs', len(jobs))
     print('MISSED mutants:', miss)
-    print('ALARMS on benign:', [(n, {p: k[:3] for p, k in f.items()}) for n, f in alarm])
+    print('ALARMS on benign:', [(n, {p: (k if verbose else k[:3]) for p, k in f.items()}) for n, f in alarm])
     print('known false alarms still firing:', [n for n, _ in known])
     print('problems:', bad)
     sys.exit(1 if miss or alarm or bad else 0)
